@@ -44,7 +44,7 @@ def literal(o):
     if isinstance(o, np.ndarray):
         return {"$arr": o.tolist()}
     if isinstance(o, PowerLawIMF):
-        return {"$imf": dict(mb=[float(x) for x in o.mb], a=[float(x) for x in o.a], N0=float(o.N0))}
+        return {"$imf": dict(mb=[float(x) for x in o.mb], a=[float(x) for x in o.a], N0=float(o.N0), ext=int(o._ext))}
     if isinstance(o, dict):
         return {k: literal(v) for k, v in o.items()}
     if isinstance(o, list):
@@ -72,6 +72,8 @@ def gen_history(rng):
         "d_wd": {"slope": 0.15, "scale": 0.5, "m_upper": 5.5}, "d_wd2": {"slope": 0.1, "scale": 0.45, "m_upper": 5.0},
         "imf": PowerLawIMF([0.1, 0.5, 1.0, 100], [-0.5, -1.3, -2.5], N0=5e5),
         "imf1": PowerLawIMF([0.1, 0.5, 1.0, 100], [-0.5, -1.3, -2.5]),          # own N0 = 1
+        # an IMF in 'raise' mode and bin breaks reaching beyond it: that construction raises the documented ValueError - and must leave no trace
+        "imf_raise": PowerLawIMF([0.1, 0.5, 1.0, 100], [-0.5, -1.3, -2.5], N0=2e6, ext="raise"), "breaks_wide": [0.05, 0.5, 1.0, 150.0],
         "nbins": [3, 3, 8], "nbins_d": {"MS": [3, 3, 8], "WD": 4, "BH": 5}, "nbins_d2": {"MS": 12, "WD": 3, "NS": 1, "BH": 4},
         "tout": np.array([3000.0, 12000.0]), "tout1": [9000.0], "tout_u": np.array([12000.0, 3000.0, 7000.0]),      # ages in the caller's own order
         "fbh_u": np.array([0.001, 0.002, 0.0015]),
@@ -101,6 +103,11 @@ def gen_history(rng):
             args = dict(FeH=feh, BH_method=m, BH_kwargs=kw, WD_kwargs=rng.choice([{"$h": "d_empty2"}, None]))
             if rng.random() < 0.3:
                 args.update(WD_method="linear", WD_kwargs={"$h": rng.choice(["d_wd", "d_wd2"])})
+        elif k == "EvolvedMF" and rng.random() < 0.25:
+            args = dict(IMF={"$h": "imf_raise"}, nbins={"$h": "nbins"}, FeH=feh, tout={"$h": "tout1"}, esc_rate=0,
+                        binning_breaks=rng.choice([{"$h": "breaks_wide"}, None]))
+            if rng.random() < 0.5:
+                args["N0"] = None           # use the IMF object's own N0
         elif k == "EvolvedMF":
             args = dict(IMF={"$h": rng.choice(["imf", "imf1"])}, nbins={"$h": rng.choice(["nbins", "nbins", "nbins_d", "nbins_d2"])}, FeH=feh,
                         tout={"$h": rng.choice(["tout", "tout1", "tout_u"])},
